@@ -1346,7 +1346,8 @@ def S9(ctx: Ctx) -> RuleResult:
     outs = ctx.ev.run(fi, {'self': self_t, 'table': table})
     if _s9_any_form(ctx, r, fi, outs, table):
         return r
-    rets = [o for o in outs if o.kind in ('return', 'fall')]
+    from .util import devirtualise_props
+    rets = devirtualise_props(ctx, ctx.ev, [o for o in outs if o.kind in ('return', 'fall')], ('is_indexed', 'is_accessor'))   # the test may be a property of the accessor classes
     raises = [o for o in outs if o.kind == 'raise']
     if not raises or not all('HplSanityError' in repr(o.value) for o in raises):
         r.fail('_some_field_refs:raise', 'does not raise HplSanityError when no own field is referenced', fi.where)
